@@ -454,10 +454,13 @@ class Ctx:
                         failed = "coqc timed out on " + name
                         running.remove(ent)
                     continue
-                out = p.stdout.read()
+                # (coqc writes to a file, not a pipe: an ill-typed shard makes it print far more than a
+                #  pipe buffer holds, and it would then block for ever instead of exiting with the error)
+                with open(os.path.join(COQ, "cases", name + ".out"), errors="replace") as fo:
+                    out = fo.read()
                 running.remove(ent)
                 if p.returncode != 0:
-                    failed = "coqc failed on %s: %s" % (name, out[-3000:])
+                    failed = "coqc failed on %s: %s" % (name, (out[:1500] + " ... " + out[-1500:]) if len(out) > 3000 else out)
                     continue
                 m = re.search(r"=\s*\[(.*?)\]\s*:\s*list N", out, flags=re.S)
                 if not m:
@@ -469,14 +472,13 @@ class Ctx:
         while pending or running:
             while pending and len(running) < NCPU:
                 name, idxs = pending.pop(0)
-                p = subprocess.Popen("coqc -noglob -Q . V cases/%s.v" % name, shell=True, cwd=COQ,
-                                     stdout=subprocess.PIPE, stderr=subprocess.STDOUT, text=True,
-                                     errors="replace")
+                p = subprocess.Popen("exec coqc -noglob -Q . V cases/%s.v > cases/%s.out 2>&1" % (name, name),
+                                     shell=True, cwd=COQ)
                 running.append((name, idxs, p, time.time()))
             reap(False)
             time.sleep(0.02)
         for name, _ in procs:
-            for ext in (".v", ".vo", ".vok", ".vos", ".glob"):
+            for ext in (".v", ".vo", ".vok", ".vos", ".glob", ".out"):
                 try:
                     os.remove(os.path.join(COQ, "cases", name + ext))
                 except OSError:
